@@ -168,6 +168,34 @@ fn run(cfg: &RunCfg) -> Report {
                 }
                 rep.class("probe-after-decode");
             }
+            // re-framed packets: a valid packet with its first byte removed (starts with 0x0F ...), with
+            // an address byte prepended, and prefixes of those
+            for base in crate::corpus::base_packets(cfg.seed).iter().take(if cfg.is_small() { 4 } else { 200 }) {
+                if (base[0] as u32) % ns != sh {
+                    continue;
+                }
+                let mut variants: Vec<Vec<u8>> = vec![base[1..].to_vec()];
+                let mut pre = vec![base[0]];
+                pre.extend_from_slice(base);
+                variants.push(pre);
+                // stripped, and addressed as if from/to the probing contexts
+                for eid in [0x00u8, 0x23, 0x42, 0xE7] {
+                    let mut t = base[1..].to_vec();
+                    if t.len() > 5 {
+                        t[2] |= 1;
+                        t[3] = 0x01;
+                        t[4] = eid;
+                        variants.push(t);
+                    }
+                }
+                for v in variants {
+                    for k in [v.len(), v.len().min(7), v.len().min(9), 3.min(v.len())] {
+                        check(a, "A", &v[..k], &mut rep);
+                        check(b, "B", &v[..k], &mut rep);
+                    }
+                }
+                rep.class("re-framed-packets");
+            }
             rep.class_n("prefixes-bare", bare);
             let _ = &mut rng;
         })
